@@ -73,8 +73,18 @@ func (f *Forwarded) UnmarshalXML(d *xml.Decoder, start xml.StartElement) error {
 		switch tt := t.(type) {
 
 		case xml.StartElement:
-			if packet, err := decodeClient(d, tt); err == nil {
+			switch tt.Name.Local {
+			case "message", "presence", "iq":
+				packet, err := decodeClient(d, tt)
+				if err != nil {
+					return err
+				}
 				f.Stanza = packet
+			default:
+				// Not a stanza: consume the element entirely
+				if err := d.Skip(); err != nil {
+					return err
+				}
 			}
 
 		case xml.EndElement:
